@@ -585,6 +585,38 @@ def riEntry {α : Type} (r dc : Nat) : TD α → Except Err (TD α)
 termination_by e => (sizeOf e, 0)
 end
 
+mutual
+/-- _td.py:repeat_interleave with a TENSOR of repeats (≥ 2 elements, or none) and an explicit dim on a batch of rank ≥ 1: one count per position
+along `dim` (`repeats.numel() != dim_size` → RuntimeError), the new size is their sum; every leaf gets the same torch call, a nested
+tensordict the same method -/
+def riListNode {α : Type} (rs : List Nat) (d : Int) (bs : Shape) (names : Names) (es : List (String × TD α)) : Except Err (TD α) :=
+  let dc : Int := if d ≥ 0 then d else bs.length + d
+  if ¬ (0 ≤ dc ∧ dc < bs.length) then .error .value
+  else if rs.length ≠ bs.getD dc.toNat 0 then .error .runtime
+  else
+    match riListEntries rs dc.toNat es with
+    | .error e => .error e
+    | .ok es' => .ok (.node (bs.set dc.toNat rs.sum) (normNames names) es')
+termination_by (sizeOf es, 1)
+
+def riListEntries {α : Type} (rs : List Nat) (dc : Nat) : List (String × TD α) → Except Err (List (String × TD α))
+  | [] => .ok []
+  | (k, e) :: rest =>
+    match riListEntry rs dc e with
+    | .error err => .error err
+    | .ok e' => match riListEntries rs dc rest with
+      | .error err => .error err
+      | .ok rest' => .ok ((k, e') :: rest')
+termination_by es => (sizeOf es, 0)
+
+def riListEntry {α : Type} (rs : List Nat) (dc : Nat) : TD α → Except Err (TD α)
+  | .leaf t => if ¬ (dc < t.rank) then .error .index
+               else if rs.length ≠ t.shape.getD dc 0 then .error .runtime
+               else .ok (.leaf (T.repeatInterleaveL rs dc t))
+  | .node bs2 nm2 es2 => riListNode rs dc bs2 nm2 es2
+termination_by e => (sizeOf e, 0)
+end
+
 /-- the public `repeat_interleave(r, dim)` (_td.py:repeat_interleave, top of the function): a 0-d batch is unsqueezed first
 (`self.unsqueeze(0).repeat_interleave(…)`); with `dim=None` a batch of rank > 1 is flattened with `reshape(-1)`, then dim 0 -/
 def riPublic {α : Type} (r : Int) (d : Option Int) (bs : Shape) (names : Names) (es : List (String × TD α)) : Except Err (TD α) :=
